@@ -352,7 +352,7 @@ func coordinate(c *Check, tier string) int {
 
 	// ---- verdict
 	wall := time.Since(start).Seconds()
-	exhaustive := !timedOut && !stop && len(harnessErrs) == 0
+	exhaustive := !timedOut && !stop && len(harnessErrs) == 0 && len(violations) == 0
 	code := 0
 	for _, k := range known {
 		if k.Prop == c.Prop && k.Hits > 0 {
